@@ -262,6 +262,10 @@ func genC15(c *Ctx) {
 			if n > 1<<62 {
 				continue
 			}
+			// the root package has its own copy of RoundUpPowerOfTwo: the two must agree (also beyond 2^32)
+			c.check(square.RoundUpPowerOfTwo(n) == inclusion.RoundUpPowerOfTwo(n) && isPow2(square.RoundUpPowerOfTwo(n)) &&
+				square.RoundUpPowerOfTwo(uint64(n)) == uint64(inclusion.RoundUpPowerOfTwo(n)),
+				"square.RoundUpPowerOfTwo", "differs from inclusion.RoundUpPowerOfTwo / not a power of two", map[string]any{"n": n})
 			c.add("rup", s(n))
 			c.add("rdown", s(n))
 			c.add("ispow2", s(n))
@@ -927,6 +931,13 @@ func genC18(c *Ctx) {
 		for fill := 1; fill <= 4; fill++ {
 			v0ins = append(v0ins, v0in{l, fill})
 		}
+	}
+	{
+		// a nil and an empty sub-id are the same (well-formed, zero-length) sub-id
+		a, errA := share.NewV0Namespace(nil)
+		b, errB := share.NewV0Namespace([]byte{})
+		c.check(errA == nil && errB == nil && bytes.Equal(a.Bytes(), make([]byte, 29)) && bytes.Equal(b.Bytes(), make([]byte, 29)),
+			"NewV0Namespace", "nil / empty sub-id not accepted as the all-zero version 0 namespace", map[string]any{"sub": "nil and []byte{}"})
 	}
 	for _, in := range v0ins {
 		l := in.l
